@@ -94,15 +94,15 @@ func (p *Prog) blockingSites(f *Func) []blockSite {
 		switch x := n.(type) {
 		case *ast.UnaryExpr:
 			if x.Op == token.ARROW && commOf(x) == nil {
-				out = append(out, blockSite{f, x, "recv", "<-" + stripVarLines(p.Canon(x.X))})
+				out = append(out, blockSite{f, x, "recv", "<-" + p.siteKey(f, x.X)})
 			}
 		case *ast.SendStmt:
 			if commOf(x) == nil {
-				out = append(out, blockSite{f, x, "send", stripVarLines(p.Canon(x.Chan)) + "<-"})
+				out = append(out, blockSite{f, x, "send", p.siteKey(f, x.Chan) + "<-"})
 			}
 		case *ast.CallExpr:
 			if p.CalleeName(x) == "sync.WaitGroup.Wait" {
-				out = append(out, blockSite{f, x, "wg.Wait", stripVarLines(p.Canon(x.Fun))})
+				out = append(out, blockSite{f, x, "wg.Wait", p.siteKey(f, x.Fun)})
 			}
 		}
 		return true
@@ -168,13 +168,13 @@ func checkC08(p *Prog, r *Report) {
 		order func(f *Func, n ast.Node) bool
 	}
 	allowed := map[string]allowedBlock{
-		"newAgentWithConfig$1|recv|<-$agent.gatherCandidateDone": {"close callback waits for the cancelled gatherer", func(f *Func, n ast.Node) bool {
+		"newAgentWithConfig$1|recv|<-Agent.gatherCandidateDone": {"close callback waits for the cancelled gatherer", func(f *Func, n ast.Node) bool {
 			return p.precededBy(f, n.Pos(), func(c *ast.CallExpr) bool { return p.IsField(c.Fun, "Agent.gatherCandidateCancel") })
 		}},
-		"candidateBase.close|recv|<-$c.closedCh": {"candidate close waits for its receive loop", func(f *Func, n ast.Node) bool {
+		"candidateBase.close|recv|<-candidateBase.closedCh": {"candidate close waits for its receive loop", func(f *Func, n ast.Node) bool {
 			return p.precededBy(f, n.Pos(), func(c *ast.CallExpr) bool { return p.CalleeName(c) == "ice.candidateBase.abortIO" })
 		}},
-		"tcpPacketConn.Close|wg.Wait|$t.wg.Wait": {"packet conn waits for its readers", func(f *Func, n ast.Node) bool {
+		"tcpPacketConn.Close|wg.Wait|tcpPacketConn.wg.Wait": {"packet conn waits for its readers", func(f *Func, n ast.Node) bool {
 			closedCh := p.precededBy(f, n.Pos(), func(c *ast.CallExpr) bool {
 				return p.CalleeName(c) == "builtin.close" && len(c.Args) == 1 && p.IsField(c.Args[0], "tcpPacketConn.closedChan")
 			})
@@ -183,7 +183,7 @@ func checkC08(p *Prog, r *Report) {
 			unlocked := !p.Locks(f).At(n)["tcpPacketConn.mu"]
 			return closedCh && conns && unlocked
 		}},
-		"bufferedConn.Close|recv|<-$bc.done": {"buffered TCP conn waits for its writer goroutine", func(f *Func, n ast.Node) bool {
+		"bufferedConn.Close|recv|<-bufferedConn.done": {"buffered TCP conn waits for its writer goroutine", func(f *Func, n ast.Node) bool {
 			// the writer is unblocked by closing the buffer it reads from and the connection it writes to
 			buf := p.precededBy(f, n.Pos(), func(c *ast.CallExpr) bool {
 				sel, ok := unparen(c.Fun).(*ast.SelectorExpr)
@@ -195,7 +195,7 @@ func checkC08(p *Prog, r *Report) {
 			})
 			return buf && conn
 		}},
-		"TCPMuxDefault.Close|wg.Wait|$m.wg.Wait": {"(only reachable when the application closes the mux from a callback; listed for completeness)", func(f *Func, n ast.Node) bool {
+		"TCPMuxDefault.Close|wg.Wait|TCPMuxDefault.wg.Wait": {"(only reachable when the application closes the mux from a callback; listed for completeness)", func(f *Func, n ast.Node) bool {
 			return !p.Locks(f).At(n)["TCPMuxDefault.mu"]
 		}},
 	}
@@ -220,7 +220,7 @@ func checkC08(p *Prog, r *Report) {
 	}
 	sort.Strings(loopBlocks)
 	r.Extra["blocking_sites_in_loop_context"] = loopBlocks
-	for _, must := range []string{"newAgentWithConfig$1|recv|<-$agent.gatherCandidateDone", "candidateBase.close|recv|<-$c.closedCh", "tcpPacketConn.Close|wg.Wait|$t.wg.Wait"} {
+	for _, must := range []string{"newAgentWithConfig$1|recv|<-Agent.gatherCandidateDone", "candidateBase.close|recv|<-candidateBase.closedCh", "tcpPacketConn.Close|wg.Wait|tcpPacketConn.wg.Wait"} {
 		if !found[must] {
 			r.Fail("blocking site "+must, "", "enumerated wait no longer present in loop context: the corresponding goroutine is not waited for at shutdown (goroutine leak after Close)")
 		}
@@ -893,4 +893,20 @@ func hasMethod(t types.Type, name string) bool {
 		}
 	}
 	return false
+}
+
+// siteKey names the channel / wait group of a blocking operation by the field
+// it is (Struct.field), whatever the variable through which it is reached is
+// called; anything else is rendered by role.
+func (p *Prog) siteKey(f *Func, e ast.Expr) string {
+	e = unparen(e)
+	if fv := p.FieldOf(e); fv != nil {
+		return p.FieldName(fv)
+	}
+	if sel, ok := e.(*ast.SelectorExpr); ok {
+		if fv := p.FieldOf(sel.X); fv != nil {
+			return p.FieldName(fv) + "." + sel.Sel.Name
+		}
+	}
+	return p.RoleCanon(f, e)
 }
